@@ -279,6 +279,39 @@ CLAIMED = {
               "and by the harness' independent parser only; the IPv4 text has a proved round trip through an independent "
               "reader. Fixed finding: PROC_UNAVAIL was sent as 5 (SYSTEM_ERR)."),
         technique="Coq theorems (parser correctness, encoder/decoder round trip, dispatch) + extracted monitor on implementation output + model/implementation correspondence"),
+    "C10": dict(
+        text=("Coq theorems by reflection, for payloads of EVERY length: the published signature set is written by hand as a "
+              "deterministic reference automaton (Spec/RefSig.v: 19 signatures, '*' = any byte, begin anchors, two "
+              "end-anchored layouts; proved equal to the direct reading 'the shortest completed prefix decides'); a "
+              "checker for a finite certificate of the product of the compiled matcher -- the table DUMPED FROM THE "
+              "IMPLEMENTATION ON EVERY RUN -- with that automaton is proved sound: if it accepts, then for every byte "
+              "string outside the committed known class D0 the matcher's one-shot identification (search_next + "
+              "search_next_end, UDP) and its stream identification (TCP) equal the reference. The per-run obligation "
+              "product_ok the_table K0 is re-decided by the kernel (vm_compute, ~2 s) whenever the dump changes, so a "
+              "changed pattern, anchor flag, wildcard fix-up or table cell breaks a proof obligation; the extracted "
+              "function disagreements_k then yields the concrete strings, which are replayed on the real matcher. Further "
+              "theorems: identification over any list of TCP segments equals identification over the concatenation (same "
+              "id, state and stream offset; the control block holds exactly the one-shot state while undecided); "
+              "proto::repl dispatches to the responder of the identified protocol, and to the DNS fallback only -- never a "
+              "signature-dispatched responder -- when nothing is identified; identification takes no address or port. "
+              "K0 (92 points of the reference automaton, four families) is shown sufficient (all 773 raw disagreement "
+              "points lie inside) and necessary entry by entry, with kernel-computed witnesses. Tied to /repo by the table "
+              "dump, by ~30 000 (thorough: 150 000) calls of the real matcher per run on one access string per product "
+              "state x next byte / END compared with the extracted model and with an independent Python reading of the "
+              "published list, by segmentation trials with carried state, and at frame level by sending every access "
+              "string and complete requests of every protocol over UDP and TCP (ports, IP versions, cuts of the prefix) "
+              "and classifying the responder that answered."),
+        design="DESIGN.md sections 5 (C10) and 10.7",
+        note=("Trusted: Coq kernel/vm_compute (the product check runs in the kernel), extraction + OCaml driver, harness incl. "
+              "sigs.py, the hooks that dump the table and call the real matcher, the data translator. The exploration that "
+              "produces the certificate and the Python script that generated K0 are untrusted (only the checker is proved). "
+              "Known finding wildcard_shadowing = K0: RPC calls whose first bytes start like another signature, RPC/TCP "
+              "records whose XID starts with 00, STUN magic-cookie requests with a zero length high byte outside the two "
+              "end-anchored layouts, and the END column redirected by the fix-up; the strict checker also requires the "
+              "matcher to be dead at the dead points, a lax variant (monotone in K0) is proved too. Which complete requests "
+              "a responder answers is C13/C15/C16/C17/C18; over TCP the handler sees only the segment in which "
+              "identification completed (C11 known finding)."),
+        technique="Coq reflection: proved-sound product check of the dumped matcher table against a reference signature automaton (kernel-computed per run) + segmentation/dispatch theorems + real-matcher and frame-level correspondence"),
     "C14": dict(
         text=("Coq theorems over the DNS responder model and proto::repl / reply(): an independent RFC 1035 codec "
               "(Spec/RefDns.v: structured queries and messages, encoder, complete strict decoder; round trip, soundness, "
